@@ -13,6 +13,7 @@ from hypothesis import strategies as st
 
 from .. import astgen, formcheck, inputs, kernels, lnstrategies, lntree, specs, strategies
 from ..common import Run, ShardResult, canon, run_shards, scratch, spec_hash, verif_seed
+from ..common import thorough  # noqa: E402
 from ..hyp import Outcome, drive
 
 PROP = "C17"
@@ -328,7 +329,7 @@ def shard(shard, nshards, n_over, n_body, seed):
 
 def run(tier: str) -> int:
     run_ = Run(PROP, tier, "exploration", RULE)
-    n_over, n_body = (2, 6) if tier == "quick" else (40, 120)
+    n_over, n_body = (2, 6) if tier == "quick" else (thorough(20), thorough(50))
     for part in run_shards(shard, 16, n_over=n_over, n_body=n_body, seed=verif_seed()):
         run_.merge(part)
     run_.extra["operand_kinds"] = len(lnstrategies.operand_kinds())
